@@ -139,7 +139,8 @@ def name_of(i):
 
 
 def run_impl(sat, cnf, limit):
-    """Returns (canonical result, oracle info).  cnf uses int names; converted to strings."""
+    """Returns (canonical result, decision order, recorded resolution results).  cnf uses int names; converted to
+    strings.  The set orders are recorded by wrapping `sat.resolution` when the module still has such a function."""
     pcnf = [[(name_of(n), b) for (n, b) in cl] for cl in cnf]
     variables = set()
     for clause in pcnf:
@@ -147,13 +148,14 @@ def run_impl(sat, cnf, limit):
             variables.add(name)
     var_order = [int(v[1:]) for v in variables]
     rec = []
-    orig = sat.resolution
+    orig = getattr(sat, "resolution", None)
 
     def wrapped(c1, c2, name):
         r = orig(c1, c2, name)
         rec.append([(int(n[1:]), b) for (n, b) in r])
         return r
-    sat.resolution = wrapped
+    if callable(orig):
+        sat.resolution = wrapped
     snapshot = json.dumps(pcnf)
     try:
         with time_limit(limit):
@@ -163,14 +165,21 @@ def run_impl(sat, cnf, limit):
     except Exception as e:  # noqa
         return ("raise", type(e).__name__), var_order, rec
     finally:
-        sat.resolution = orig
+        if callable(orig):
+            sat.resolution = orig
     if json.dumps(pcnf) != snapshot:
-        return ("input-modified",), var_order, rec
-    if res[0] == "satisfiable":
-        return ("sat", sorted((int(n[1:]), bool(b)) for n, b in res[1].items())), var_order, rec
-    elif res[0] == "unsatisfiable":
-        return ("unsat", sorted((int(k), [int(x) for x in v]) for k, v in res[1].items())), var_order, rec
+        INPUT_MODIFIED.append(cnf)                           # not required by the property: counted, not reported
+    try:
+        if res[0] == "satisfiable":
+            return ("sat", sorted((int(n[1:]), bool(b)) for n, b in res[1].items())), var_order, rec
+        elif res[0] == "unsatisfiable":
+            return ("unsat", sorted((int(k), [int(x) for x in v]) for k, v in res[1].items())), var_order, rec
+    except Exception:  # noqa
+        pass
     return ("other", repr(res)), var_order, rec
+
+
+INPUT_MODIFIED = []
 
 
 # ------------------------------------------------------------------ independent oracles
@@ -238,22 +247,120 @@ def parse_model(line):
 
 
 # ------------------------------------------------------------------ tseitin
-def gen_formula(rng, depth, atoms, T):
+def is_connective(t):
+    """The connectives `tseitin.encode` is meant to decompose: an equality only between booleans."""
+    from kernel.type import BoolType
+    if t.is_equals():
+        return t.arg.get_type() == BoolType
+    return t.is_not() or t.is_conj() or t.is_disj() or t.is_implies()
+
+
+def is_const_tf(t):
+    from kernel import term as T
+    return t == T.true or t == T.false
+
+
+def eval_form(t, env):
+    """env: str(atom) -> bool."""
+    from kernel import term as T
+    if t == T.true:
+        return True
+    if t == T.false:
+        return False
+    if is_connective(t):
+        if t.is_not():
+            return not eval_form(t.arg, env)
+        if t.is_conj():
+            return eval_form(t.arg1, env) and eval_form(t.arg, env)
+        if t.is_disj():
+            return eval_form(t.arg1, env) or eval_form(t.arg, env)
+        if t.is_implies():
+            return (not eval_form(t.arg1, env)) or eval_form(t.arg, env)
+        return eval_form(t.arg1, env) == eval_form(t.arg, env)
+    return env[str(t)]
+
+
+def atoms_of(t, acc):
+    """atoms (as strings) of a formula; a non-boolean equality such as m = n is one atom"""
+    if is_const_tf(t):
+        return acc
+    if is_connective(t):
+        if not t.is_not():
+            atoms_of(t.arg1, acc)
+        atoms_of(t.arg, acc)
+    else:
+        acc.add(str(t))
+    return acc
+
+
+class Names:
+    """Name space shared with the model: the name x<k> is 2k, any other name or non-variable atom an odd number."""
+    def __init__(self):
+        self.other = {}
+
+    def code(self, name):
+        if len(name) >= 2 and name[0] == "x" and name[1:].isdigit() and str(int(name[1:])) == name[1:]:
+            return 2 * int(name[1:])
+        return self.other.setdefault(name, 2 * len(self.other) + 1)
+
+    def decode_aux(self, name):
+        return self.code(name) if name[:1] == "x" and name[1:].isdigit() else -1
+
+
+def form_sexp(t, names, extra=None):
+    """holpy term -> wire form of the model's `Form`; `extra` collects the names of variables inside atoms that are
+    not variables."""
+    from kernel import term as T
+    if t == T.true:
+        return "tt"
+    if t == T.false:
+        return "ff"
+    if is_connective(t):
+        if t.is_not():
+            return ["not", form_sexp(t.arg, names, extra)]
+        tag = "and" if t.is_conj() else "or" if t.is_disj() else "imp" if t.is_implies() else "iff"
+        return [tag, form_sexp(t.arg1, names, extra), form_sexp(t.arg, names, extra)]
+    if t.is_var():
+        return ["atom", names.code(t.name)]
+    if extra is not None:
+        extra.extend(names.code(v.name) for v in t.get_vars())
+    return ["atom", names.code("@" + str(t))]
+
+
+def canon_clauses(cnf):
+    """A CNF as a set of clauses, each clause a sorted tuple of distinct literals."""
+    return sorted({tuple(sorted(set((int(n), bool(b)) for n, b in cl))) for cl in cnf})
+
+
+def make_atoms(T):
+    from kernel.type import BoolType, NatType
+    B = lambda n: T.Var(n, BoolType)                         # noqa
+    N = lambda n: T.Var(n, NatType)                          # noqa
+    plain = [B(n) for n in "abcd"]
+    clash = [B("x%d" % i) for i in range(1, 7)]              # names of the shape encode generates
+    near = [B("x"), B("x0"), B("x01"), B("y1"), B("x10")]
+    opaque = [T.Eq(N("m"), N("n")), T.Eq(N("x2"), N("n")), T.Eq(N("x3"), N("x4")), T.Eq(N("m"), N("m"))]
+    return plain, clash, near, opaque
+
+
+def gen_formula(rng, depth, atoms, T, consts=0.0):
     if depth == 0 or rng.random() < 0.25:
+        if rng.random() < consts:
+            return rng.choice([T.true, T.false])
         return rng.choice(atoms)
     k = rng.randint(0, 4)
     if k == 0:
-        return T.Not(gen_formula(rng, depth - 1, atoms, T))
-    a, b = gen_formula(rng, depth - 1, atoms, T), gen_formula(rng, depth - 1, atoms, T)
+        return T.Not(gen_formula(rng, depth - 1, atoms, T, consts))
+    a, b = gen_formula(rng, depth - 1, atoms, T, consts), gen_formula(rng, depth - 1, atoms, T, consts)
     return [None, T.And, T.Or, T.Implies, T.Eq][k](a, b)
 
 
-def gen_unsat_formula(rng, atoms, T):
+def gen_unsat_formula(rng, atoms, T, consts=0.0):
     """Negated instance of a tautology scheme (or a direct contradiction): unsatisfiable, and for a reason that goes
     through every connective's defining clauses."""
-    g = gen_formula(rng, rng.randint(0, 1), atoms, T)
-    h = gen_formula(rng, rng.randint(0, 1), atoms, T)
-    k = gen_formula(rng, 0, atoms, T)
+    g = gen_formula(rng, rng.randint(0, 1), atoms, T, consts)
+    h = gen_formula(rng, rng.randint(0, 1), atoms, T, consts)
+    k = gen_formula(rng, 0, atoms, T, consts)
     N, A, O, I, E = T.Not, T.And, T.Or, T.Implies, T.Eq
     schemes = [
         lambda: A(g, N(g)), lambda: N(O(g, N(g))), lambda: N(I(g, g)), lambda: E(g, N(g)), lambda: N(E(g, g)),
@@ -262,83 +369,73 @@ def gen_unsat_formula(rng, atoms, T):
         lambda: N(E(N(O(g, h)), A(N(g), N(h)))), lambda: N(E(I(g, h), O(N(g), h))), lambda: A(O(g, h), A(N(g), N(h))),
         lambda: N(I(A(E(g, h), E(h, k)), E(g, k))), lambda: A(E(g, h), A(g, N(h))), lambda: A(I(g, h), A(g, N(h))),
         lambda: N(E(N(N(g)), g)), lambda: A(E(g, h), A(N(g), h)),
+        lambda: A(g, T.false), lambda: N(O(g, T.true)), lambda: E(T.true, T.false), lambda: N(I(T.false, g)),
+        lambda: A(E(g, T.true), N(g)), lambda: A(E(g, T.false), g),
     ]
     return rng.choice(schemes)()
 
 
-def eval_form(t, env):
-    if t.is_not():
-        return not eval_form(t.arg, env)
-    if t.is_conj():
-        return eval_form(t.arg1, env) and eval_form(t.arg, env)
-    if t.is_disj():
-        return eval_form(t.arg1, env) or eval_form(t.arg, env)
-    if t.is_implies():
-        return (not eval_form(t.arg1, env)) or eval_form(t.arg, env)
-    if t.is_equals():
-        return eval_form(t.arg1, env) == eval_form(t.arg, env)
-    return env[t.name]
+def classify_formula(f):
+    """Class of a formula for violation keys: which of the once-broken constructs it contains."""
+    import re
+    names = {v.name for v in f.get_vars()}
+    tags = []
+    if any(re.fullmatch(r"x[1-9][0-9]*", n) for n in names):
+        tags.append("atom-named-like-auxiliary")
+    if any(is_const_tf(t) for t in subterms_all(f)):
+        tags.append("true-false-constant")
+    if any(t.is_equals() and not is_connective(t) for t in subterms_all(f)):
+        tags.append("non-boolean-equality-atom")
+    return "+".join(tags) if tags else str(f)
 
 
-def atoms_of(t, acc):
-    if t.is_not():
-        atoms_of(t.arg, acc)
-    elif t.is_conj() or t.is_disj() or t.is_implies() or t.is_equals():
-        atoms_of(t.arg1, acc)
-        atoms_of(t.arg, acc)
-    else:
-        acc.add(t.name)
-    return acc
-
-
-def form_sexp(t, atom_ids):
-    """holpy term -> wire form of the model's `Form` (atoms numbered by `atom_ids`)."""
-    if t.is_not():
-        return ["not", form_sexp(t.arg, atom_ids)]
-    for test, tag in (("is_conj", "and"), ("is_disj", "or"), ("is_implies", "imp"), ("is_equals", "iff")):
-        if getattr(t, test)():
-            return [tag, form_sexp(t.arg1, atom_ids), form_sexp(t.arg, atom_ids)]
-    return ["atom", atom_ids[t.name]]
-
-
-def canon_clauses(cnf):
-    """A CNF as a set of clauses, each clause a sorted tuple of distinct literals."""
-    return sorted({tuple(sorted(set((int(n), bool(b)) for n, b in cl))) for cl in cnf})
-
-
-def form_term(x, T, atoms):
-    """inverse of form_sexp"""
-    if x[0] == "atom":
-        return atoms[int(x[1])]
-    if x[0] == "not":
-        return T.Not(form_term(x[1], T, atoms))
-    return {"and": T.And, "or": T.Or, "imp": T.Implies, "iff": T.Eq}[x[0]](form_term(x[1], T, atoms), form_term(x[2], T, atoms))
+def subterms_all(t):
+    out = [t]
+    if is_connective(t):
+        if not t.is_not():
+            out += subterms_all(t.arg1)
+        out += subterms_all(t.arg)
+    return out
 
 
 def tseitin_stage(ctx, only=None):
     from kernel import term as T, theory, report
-    from kernel.type import BoolType
     from logic import basic
     from prover import tseitin
     basic.load_theory('sat')
     rng = ctx.rng("tseitin")
-    atoms = [T.Var(n, BoolType) for n in "abcd"]
-    atom_ids = {"a": 0, "b": 1, "c": 2, "d": 3}
-    n = ctx.scale(60, 600)
+    plain, clash, near, opaque = make_atoms(T)
+    a, b = plain[0], plain[1]
+    x1, x2 = clash[0], clash[1]
+    n = ctx.scale(70, 700)
     lines, impl_cnfs = [], []
-    fixed = [atoms[0], T.And(atoms[0], atoms[0]), T.Eq(atoms[0], atoms[1]), T.Not(T.Not(atoms[0])),
-             T.Or(T.And(atoms[0], T.Not(atoms[0])), atoms[1]), T.Implies(T.And(atoms[0], atoms[1]), T.And(atoms[0], atoms[1]))]
+    fixed = [a, T.And(a, a), T.Eq(a, b), T.Not(T.Not(a)),
+             T.Or(T.And(a, T.Not(a)), b), T.Implies(T.And(a, b), T.And(a, b)),
+             T.And(a, T.Not(x1)), T.And(x1, T.Not(a)), T.Or(x2, T.And(x1, a)), T.Eq(x1, T.Not(x2)), x1,
+             T.true, T.false, T.Not(T.true), T.And(a, T.false), T.Or(a, T.true), T.Eq(a, T.true), T.Implies(T.false, a),
+             opaque[0], T.And(a, opaque[0]), T.Not(opaque[1]), T.Eq(opaque[2], a), T.And(opaque[3], T.Not(opaque[0]))]
     if only is not None:
-        fixed, n = [form_term(x, T, atoms) for x in only], 0
+        fixed, n = [t for t in only], 0
     for i in range(n + len(fixed)):
         if i < len(fixed):
             f = fixed[i]
-        elif rng.random() < 0.45:
-            f = gen_unsat_formula(rng, atoms, T)
         else:
-            f = gen_formula(rng, rng.randint(1, 3), atoms, T)
-        ctx.case(("tseitin", str(f)), nontrivial=not f.is_var())
+            r = rng.random()
+            pool = plain if r < 0.3 else plain[:2] + clash if r < 0.65 else plain[:2] + clash[:3] + near if r < 0.8 else plain[:2] + clash[:2] + opaque
+            consts = 0.15 if rng.random() < 0.4 else 0.0
+            if rng.random() < 0.45:
+                f = gen_unsat_formula(rng, pool, T, consts)
+            else:
+                f = gen_formula(rng, rng.randint(1, 3), pool, T, consts)
+        names = Names()
+        ctx.case(("tseitin", str(f)), nontrivial=is_connective(f))
         ctx.count("tseitin")
+        cls = classify_formula(f)
+        if cls != str(f):
+            ctx.count("tseitin:" + cls)
+        if any(not t.is_var() and not is_connective(t) and not is_const_tf(t) for t in subterms_all(f)):
+            ctx.count("tseitin:non-variable-atom")
+        rp = {"formula": str(f), "term": repr_term(f)}
         try:
             with time_limit(120):
                 pt = tseitin.encode(f)
@@ -347,46 +444,52 @@ def tseitin_stage(ctx, only=None):
         except Timeout:
             raise
         except Exception as e:  # noqa
-            ctx.violation("tseitin:raise:%s" % type(e).__name__, "tseitin.encode / check_proof raised %s on %s" % (type(e).__name__, f),
-                          {"formula": str(f), "form": form_sexp(f, atom_ids), "error": repr(e)})
+            ctx.violation("tseitin:raise:%s:%s" % (type(e).__name__, cls), "tseitin.encode / check_proof raised %s on %s" % (type(e).__name__, f),
+                          dict(rp, error=repr(e)))
             continue
         if th != pt.th or len(rpt.gaps) > 0:
-            ctx.violation("tseitin:not-checked:%s" % f, "Tseitin theorem for %s not accepted by the checker" % f, {"formula": str(f), "form": form_sexp(f, atom_ids)})
+            ctx.violation("tseitin:not-checked:%s" % cls, "Tseitin theorem for %s not accepted by the checker" % f, rp)
             continue
         # Semantic oracle: hyps are As (x_i <-> ...) and F; conclusion is the CNF.
         try:
             cnf = tseitin.convert_cnf(pt.prop)
+            assert all(isinstance(nm, str) and isinstance(bv, bool) for cl in cnf for nm, bv in cl)
         except Exception as e:  # noqa
-            ctx.violation("tseitin:not-cnf:%s" % f, "conclusion of Tseitin theorem for %s is not a CNF" % f, {"formula": str(f), "form": form_sexp(f, atom_ids), "prop": str(pt.prop)})
+            ctx.violation("tseitin:not-cnf:%s" % cls, "conclusion of Tseitin theorem for %s is not a CNF: %s" % (f, pt.prop), dict(rp, prop=str(pt.prop)))
             continue
-        # correspondence with the model's clause set: same numbering x1..xn of the subterms
+        # correspondence with the model's clause set: same numbering of the subterms, same name space
         try:
             order = tseitin.logic_subterms(f)
-            lines.append(sexp.dumps(["tseitin", form_sexp(f, atom_ids), [form_sexp(g, atom_ids) for g in order]]))
-            impl_cnfs.append((str(f), [[(int(nm[1:]) if nm[:1] == "x" and nm[1:].isdigit() else -1, b) for nm, b in cl] for cl in cnf]))
+            extra = []
+            fx = form_sexp(f, names, extra)
+            lines.append(sexp.dumps(["tseitin", fx, sorted(set(extra)), [form_sexp(g, names) for g in order]]))
+            impl_cnfs.append((str(f), [[(names.decode_aux(nm), bv) for nm, bv in cl] for cl in cnf]))
         except Exception as e:  # noqa
             ctx.broken("correspondence:c15:tseitin", "cannot read the subterm numbering of %s: %r" % (f, e))
         f_atoms = sorted(atoms_of(f, set()))
         f_sat = any(eval_form(f, dict(zip(f_atoms, bits))) for bits in itertools.product((False, True), repeat=len(f_atoms)))
-        names = sorted({nm for cl in cnf for nm, _ in cl})
-        if len(names) <= 18:
+        cnames = sorted({nm for cl in cnf for nm, _ in cl})
+        if len(cnames) <= 18:
             c_sat = False
-            for bits in itertools.product((False, True), repeat=len(names)):
-                a = dict(zip(names, bits))
-                if all(any(a[nm] == b for nm, b in cl) for cl in cnf):
+            for bits in itertools.product((False, True), repeat=len(cnames)):
+                asg = dict(zip(cnames, bits))
+                if all(any(asg[nm] == bv for nm, bv in cl) for cl in cnf):
                     c_sat = True
                     break
             ctx.count("tseitin:formula-%s" % ("sat" if f_sat else "unsat"))
             if c_sat != f_sat:
-                ctx.violation("tseitin:not-equisat:%s" % f, "Tseitin CNF of %s is %ssatisfiable but the formula is %ssatisfiable" % (f, "" if c_sat else "un", "" if f_sat else "un"),
-                              {"formula": str(f), "form": form_sexp(f, atom_ids), "tseitin_cnf": cnf})
+                ctx.violation("tseitin:not-equisat:%s" % cls, "Tseitin CNF of %s is %ssatisfiable but the formula is %ssatisfiable" % (f, "" if c_sat else "un", "" if f_sat else "un"),
+                              dict(rp, tseitin_cnf=cnf))
         # the sequent itself must be valid: every assignment satisfying all hyps satisfies the CNF
-        allv = sorted(set(names) | set(f_atoms) | {v.name for h in pt.hyps for v in h.get_vars()})
+        hyp_atoms = set()
+        for h in pt.hyps:
+            atoms_of(h, hyp_atoms)
+        allv = sorted(set(cnames) | set(f_atoms) | hyp_atoms)
         if len(allv) <= 16:
             for bits in itertools.product((False, True), repeat=len(allv)):
-                a = dict(zip(allv, bits))
-                if all(eval_form(h, a) for h in pt.hyps) and not all(any(a[nm] == b for nm, b in cl) for cl in cnf):
-                    ctx.violation("tseitin:invalid-sequent:%s" % f, "Tseitin theorem for %s is not valid" % f, {"formula": str(f), "form": form_sexp(f, atom_ids), "assignment": a})
+                asg = dict(zip(allv, bits))
+                if all(eval_form(h, asg) for h in pt.hyps) and not all(any(asg[nm] == bv for nm, bv in cl) for cl in cnf):
+                    ctx.violation("tseitin:invalid-sequent:%s" % cls, "Tseitin theorem for %s is not valid" % f, dict(rp, assignment=asg))
                     break
     ctx.sample({"tseitin_formula": str(f)})
     out = ctx.lean_driver(EXE, lines) if lines else []
@@ -405,6 +508,41 @@ def tseitin_stage(ctx, only=None):
             if ndis <= 3:
                 ctx.broken("correspondence:c15:tseitin", "formula=%s impl=%s model=%s" % (fs, canon_clauses(icnf), m))
                 ctx.coverage["disagreements_checked"] += 1
+
+
+def repr_term(t):
+    """A formula as nested lists from which `term_of_repr` rebuilds it (replays)."""
+    from kernel import term as T
+    if t == T.true:
+        return "true"
+    if t == T.false:
+        return "false"
+    if is_connective(t):
+        if t.is_not():
+            return ["not", repr_term(t.arg)]
+        tag = "and" if t.is_conj() else "or" if t.is_disj() else "imp" if t.is_implies() else "iff"
+        return [tag, repr_term(t.arg1), repr_term(t.arg)]
+    if t.is_var():
+        return ["var", t.name, str(t.T)]
+    if t.is_equals():
+        return ["eq", repr_term(t.arg1), repr_term(t.arg)]
+    raise ValueError("atom not supported in replays: %s" % t)
+
+
+def term_of_repr(x):
+    from kernel import term as T
+    from kernel.type import BoolType, NatType
+    if x == "true":
+        return T.true
+    if x == "false":
+        return T.false
+    if x[0] == "var":
+        return T.Var(x[1], BoolType if x[2] == "bool" else NatType)
+    if x[0] == "not":
+        return T.Not(term_of_repr(x[1]))
+    if x[0] == "eq":
+        return T.Eq(term_of_repr(x[1]), term_of_repr(x[2]))
+    return {"and": T.And, "or": T.Or, "imp": T.Implies, "iff": T.Eq}[x[0]](term_of_repr(x[1]), term_of_repr(x[2]))
 
 
 # ------------------------------------------------------------------ Gen.lean (translated encode_* rules)
@@ -536,7 +674,7 @@ def read_operator_priorities(ctx):
 # ------------------------------------------------------------------ main
 def judge(cnf, res):
     """Property oracle on one answer of the implementation: None, or (kind, what, extra)."""
-    if res[0] in ("raise", "other", "input-modified"):
+    if res[0] in ("raise", "other"):
         return ("crash:%s" % (res[-1],), "solve_cnf %s" % (res,), {})
     truth = brute_sat(cnf)
     if res[0] == "sat":
@@ -609,6 +747,10 @@ def check_cases(ctx, sat, cases, label, limit=5):
     out = ctx.lean_driver(EXE, lines) if lines else []
     cert = dict(zip(cert_idx, out[len(cases):])) if out is not None else {}
     ndis = 0
+    # Were the set orders recorded?  Not if sat.resolution is gone, or is never called although the model resolves.
+    model_resolves = out is not None and any(
+        m[0] == "unsat" and any(len(pf) >= 2 for _, pf in m[1]) for m in (parse_model(o) for o in out[:len(cases)]))
+    recording_works = any(r for _, _, r in impl) or not model_resolves
     for idx, cnf in enumerate(cases):
         res, var_order, rec = impl[idx]
         nontriv = len(cnf) >= 2 and any(len(c) >= 2 for c in cnf)
@@ -660,10 +802,19 @@ def check_cases(ctx, sat, cases, label, limit=5):
         if out is not None:
             m = parse_model(out[idx])
             if m != res:
+                if m[0] == res[0] and not recording_works:
+                    # no set order could be recorded (sat.resolution renamed / inlined): the model ran with its canonical
+                    # order, so clause order, and with it trail and trace, may differ; the verdict agrees and the real
+                    # answer was judged above by brute force and the verified checker
+                    ctx.count("order-only-disagreement(no recorded orders)")
+                    continue
                 ndis += 1
                 if ndis <= 3:
                     ctx.broken("correspondence:c15:solve", "cnf=%s impl=%s model=%s" % (cnf, res, m))
                     ctx.coverage["disagreements_checked"] += 1
+    if INPUT_MODIFIED:
+        ctx.count("input-modified", len(INPUT_MODIFIED))
+        del INPUT_MODIFIED[:]
     return out is not None
 
 
@@ -678,10 +829,11 @@ def run(ctx):
                             "(3-12 variables, up to 60 clauses), structured (all sign patterns, pigeonhole, parity chains, implication ladders; shuffled, "
                             "renamed, polarity-flipped), and messy (1-8 variables, unit/empty/duplicate clauses, repeated and complementary literals); in "
                             "the thorough tier also every combination of <=3 clauses out of the 84 clause multisets of width <=3 over 3 variables and every "
-                            "combination of 4 out of the 42 clause sets. "
+                            "combination of 4 out of the 42 clause sets, each in enumeration order and in one shuffled order. "
                             "Non-trivial = at least two clauses and one clause of width >=2; distinct by the literal lists. The histogram records how many "
-                            "resolution calls / learned clauses each run needed. Tseitin: fixed corner cases, random formulas over 4 atoms of depth <=3, "
-                            "and negated tautology-scheme instances (unsatisfiable), ~45%.")
+                            "resolution calls / learned clauses each run needed. Tseitin: fixed corner cases, random formulas of depth <=3 over atom pools that "
+                            "include variables named x1..x6 (the names encode generates), x, x0, x01, x10, y1, the constants true/false and "
+                            "non-boolean equalities (m = n, x2 = n, x3 = x4 on nat) as atoms; ~45% negated tautology-scheme instances (unsatisfiable).")
     # 1. translated table + Lean obligations
     try:
         gen = translate_encode_rules(ctx)
@@ -710,8 +862,15 @@ def run(ctx):
     have_model = check_cases(ctx, sat, cases, "random")
     if ctx.tier == "thorough":
         batch = []
+        prng = ctx.rng("perm")
         for cnf in itertools.chain(gen_exhaustive(3), gen_exhaustive_sets(4)):
             batch.append(cnf)
+            # the enumeration fixes clause and literal order (pool order): also a shuffled copy of every case with >= 2 literals
+            if sum(len(cl) for cl in cnf) >= 2:
+                sh = [prng.sample(cl, len(cl)) for cl in cnf]
+                prng.shuffle(sh)
+                if sh != cnf:
+                    batch.append(sh)
             if len(batch) >= 20000:
                 check_cases(ctx, sat, batch, "exhaustive")
                 batch = []
@@ -719,7 +878,8 @@ def run(ctx):
             check_cases(ctx, sat, batch, "exhaustive")
         ctx.coverage["exhaustive"] = False  # exhaustive for the stated sub-space only
         ctx.coverage["exhaustive_subspace"] = ("all <=3-clause combinations of the 84 clause multisets of width <=3 over 3 variables, and all "
-                                               "4-clause combinations of the 42 clause sets of width <=3 over 3 variables")
+                                               "4-clause combinations of the 42 clause sets of width <=3 over 3 variables; each in pool order and once with "
+                                               "clauses and literals shuffled")
     if not have_model:
         ctx.broken("correspondence:c15:driver", "model driver unavailable")
     # 4. tseitin
@@ -741,8 +901,8 @@ def replay(ctx, rp):
     if "cnf" in r:
         cnf = [[(int(n), bool(b)) for n, b in cl] for cl in r["cnf"]]
         check_cases(ctx, sat, [cnf], "replay", limit=60)
-    if "form" in r:
-        tseitin_stage(ctx, only=[r["form"]])
+    if "term" in r:
+        tseitin_stage(ctx, only=[term_of_repr(r["term"])])
     for v in ctx.violations:
         print("still fails:", v[1])
     return bool(ctx.violations)
@@ -750,17 +910,28 @@ def replay(ctx, rp):
 
 MANIFEST = {
     "text": "Lean theorems about an executable model of solve_cnf for every CNF, fuel and set-iteration order (sat_sound, unsat_sound, "
-            "trace_valid, proofs_valid, verdict_correct, no_crash), a verified certificate checker (checkTrace_sound, checkProofs_sound) that is run on every "
-            "'unsatisfiable' answer of the real solver, and tseitin_equisat for a model of the Tseitin CNF whose clause groups are the encode_* rules "
-            "regenerated from library/sat.json on each run; models tied to prover/sat.py and prover/tseitin.py by differential runs on generated "
-            "inputs; verdicts, assignments and traces of the real solver judged by brute force and an independent trace replay. Termination is not "
-            "proved (fuel in the model; searched for with time limits on the implementation).",
+            "trace_valid, proofs_valid, verdict_correct, no_crash, unit_propagate_fuel_suffices), a verified certificate checker "
+            "(checkTrace_sound, checkProofs_sound) that is run on every 'unsatisfiable' answer of the real solver, and for a model of "
+            "tseitin.encode with atoms and auxiliary variables in one name space, the rewriting passes and the fresh-name choice: "
+            "tseitin_equisat, tseitin_succeeds, tseitin_names_fresh (and tseitin_name_clash_counterexample for the naming before the fix); "
+            "its clause groups are the encode_* rules regenerated from library/sat.json on each run. Models tied to prover/sat.py and "
+            "prover/tseitin.py by differential runs on generated inputs; verdicts, assignments and traces of the real solver judged by brute "
+            "force and an independent trace replay. Termination is not proved (fuel in the model; searched for with time limits on the implementation).",
     "note": "Trusted: Lean kernel, propext/Classical.choice/Quot.sound, the harness generators and the recording of Python set orders, the "
             "sat.json translator. That tseitin.encode's result is a checker-accepted theorem is judged by the real checker on generated formulas "
-            "(not proved); its CNF is compared with the model's.",
+            "(not proved); its CNF is compared with the model's. tseitin_succeeds is for subterm orders that pass the model's orderOK check "
+            "(the real order always did); that the model's own default order passes it is only evaluated, not proved. Needs the /repo fixes "
+            "fixes/C15-2.patch and fixes/C15-3.patch: on a tree without them the check reports the name-clash and true/false findings.",
     "design_ref": "DESIGN.md 4/C15",
 }
 FINDINGS = [
     {"status": "fixed", "key": "nontermination:duplicate-literal-in-clause", "commit": "f79a848",
      "what": "solve_cnf([[('x', False), ('x', False)]]) did not terminate: a clause repeating a literal is never unit"},
+    {"status": "fixed", "key": "tseitin:not-equisat:atom-named-like-auxiliary", "commit": "fixes/C15-2.patch",
+     "what": "tseitin.encode(a & ~x1) returned an unsatisfiable CNF for a satisfiable formula: the auxiliary variables x1..xn "
+             "were not chosen fresh for the formula"},
+    {"status": "fixed", "key": "tseitin:not-equisat:true-false-constant", "commit": "fixes/C15-3.patch",
+     "what": "tseitin.encode(false) (also ~true, a & false) returned a satisfiable CNF: true/false were encoded as free atoms"},
+    {"status": "fixed", "key": "tseitin:raise:InvalidDerivationException:non-boolean-equality-atom", "commit": "fixes/C15-3.patch",
+     "what": "tseitin.encode raised on a formula with an atom m = n between numbers: is_logical took every equality for an equivalence"},
 ]
